@@ -15,6 +15,8 @@ Wallet part (model: `Model/Wallet.lean` part 1, `WalletApplyIndex` / `WalletReve
       maturity of spent outputs is needed;
     - `asFound` (`maturity ≤ h`, the tree as found): only under the extra hypothesis that no output is
       spent in the very block in which it matures (`WFdiff.spentBefore`) — `_partial`;
+* `C16_events_best_chain`  the event list equals (up to row order) the one derived from the best chain and no event
+  names a block off the best chain — also for blocks whose only wallet activity is ephemeral;
 * `C16_spend_at_maturity_violates`  the tree as found breaks the property on a legal chain: consensus
   lets a block at height `h` spend an output with `maturity = h`; on that chain the host either
   panics (negative stat) or books a balance that is not `Σ value | maturity ≤ height`.
@@ -332,6 +334,31 @@ theorem C16_wallet_best_chain_partial (ops : List Op) (hwf : WFops asFound [] op
   refine ⟨s', hrun, hag.utxos, hag.events, ?_, ?_⟩
   · rw [hm.1, hag.height, matureSum_perm _ hag.utxos]
   · rw [hm.2, hag.height, immatureSum_perm _ hag.utxos]
+
+/-- every event of the specification names a block of the chain it was computed from -/
+theorem spec_events_on_chain : ∀ (stk : List Diff) (e : Ev), e ∈ (specOf stk).events → ∃ d ∈ stk, d.blk = e.blk
+  | [], e, h => by simp [specOf] at h
+  | d :: below, e, h => by
+    simp only [specOf, specApply, List.mem_append, List.mem_map] at h
+    rcases h with h | ⟨i, _, rfl⟩
+    · obtain ⟨d', hd', hb⟩ := spec_events_on_chain below e h
+      exact ⟨d', List.mem_cons_of_mem _ hd', hb⟩
+    · exact ⟨d, List.mem_cons_self .., rfl⟩
+
+/-- **C16, event list.**  After any well-formed history the wallet's event list is, up to row order, the list
+derived from the best chain alone, and no event refers to a block that is not on the best chain (in particular the
+events of a disconnected block are gone, also when the block touched no wallet element). -/
+theorem C16_events_best_chain (v : Variant) (ops : List Op) (hwf : WFops v [] ops) :
+    ∃ s', run v {} ops = .ok s' ∧ s'.events.Perm (specOf (finalStk [] ops)).events ∧
+      ∀ e ∈ s'.events, ∃ d ∈ finalStk [] ops, d.blk = e.blk := by
+  obtain ⟨s', hrun, hag, _, _⟩ := C16_wallet_best_chain_gen v ops [] {} trivial
+    ⟨List.Perm.refl _, List.Perm.refl _, rfl⟩ ⟨by simp [matureSum], by simp [immatureSum]⟩ hwf
+  exact ⟨s', hrun, hag.events, fun e he => spec_events_on_chain _ e (hag.events.mem_iff.mp he)⟩
+
+/-- a block whose only wallet activity is ephemeral (events, but neither a created nor a spent element):
+disconnecting it removes its events -/
+example : (run asFound {} [.apply ⟨0, 10, [], [], []⟩, .apply ⟨1, 11, [], [], [5, 6]⟩, .revert ⟨1, 11, [], [], [5, 6]⟩]).toOption.map (·.events)
+    = some [] := by decide
 
 /-- disconnecting the block that was just connected restores the wallet (up to row order) and the metrics -/
 theorem C16_revert_undoes_apply (v : Variant) {stk : List Diff} {s : WState} {d : Diff}
